@@ -243,7 +243,7 @@ impl Run {
                 }
             }
             for l in lines {
-                if !(l.starts_with("{\"time\":\"") && l.ends_with('}')) {
+                if !(l.starts_with('{') && l.ends_with('}')) {
                     return Err(Outcome::fail("C19.whole_lines", format!("file {f} contains a split or corrupted line: {:?}; history: {:?}", l.chars().take(80).collect::<String>(), self.descr)));
                 }
                 if let Some(p) = l.find("\"seq\":") {
@@ -252,9 +252,8 @@ impl Run {
                         Ok(n) => seqs.push(n),
                         Err(_) => return Err(Outcome::fail("C19.whole_lines", format!("file {f}: unreadable seq in line; history: {:?}", self.descr))),
                     }
-                } else if !l.contains("Starting log writer") {
-                    return Err(Outcome::fail("C19.whole_lines", format!("file {f} contains a line that is neither an event nor the start marker; history: {:?}", self.descr)));
                 }
+                // (whole lines without a sequence tag are the writer's own, e.g. its start marker)
             }
         }
         // strictly consecutive (apart from torn lines), ending at the last accepted event
